@@ -143,14 +143,16 @@ CLAIMED = {
             'horizontal segments, SAGE clamping rules, ACRP low-thrust factor, ambient factor; all 63 rule paths) and SCOPE11 (all '
             'patterns of valid / invalid smoke numbers, both engine kinds, any bypass ratio; non-negative); the NOx and HC / CO kernels leave '
             'their argument arrays and certification tables unchanged (fuel flows of any sign). '
-            'Bounded part: the MEEM '
-            'estimate (finite, non-negative, linear in its certification indices) and, again, EI_HCCO / SCOPE11 against independent '
+            'MEEM (PMnvol_MEEM) is under contract too: every operation defined on valid data, GMD / mass / number index non-negative '
+            '(bound lemmas: intervals derived structurally, each leaf fact an unsat answer of z3) and mass / number index linear in the '
+            'certification indices (the goal generalised over the thrust setting and every power, then proved). Bounded part: MEEM, '
+            'EI_HCCO and SCOPE11 once more against independent '
             'reference implementations on sampled data sets.',
             'floats as reals; pow/exp/log10/sqrt uninterpreted with axiom instances (listed in the evidence); np.polyfit(deg 1) = '
             'closed-form least squares, np.interp, np.select, np.where models; the humidity term of BFFM2 is assumed defined '
             '(P > phi*Pv) on 200-320 K / >= 2 kPa; the publications are not available offline, constants are those of the '
             'standard forms (humidity reference 0.0063 as in the code; the literature also quotes 0.00634)',
-            'contract-based deductive verification with spec functions (AST->z3), plus a bounded sampled stand-in for EI_HCCO / SCOPE11',
+            'contract-based deductive verification with spec functions (AST->z3; bound lemmas and generalise-and-prove for MEEM), plus a bounded sampled second opinion for MEEM / EI_HCCO / SCOPE11',
             'DESIGN 2 C12'),
     'C01': ('proof',
             'Per-function contracts of the inventory: sum_total_emissions (every species total = trajectory sum + LTO modes + APU + '
